@@ -73,6 +73,18 @@ ConfigOK(x, y) ==
        (* derived: data volume and runtime in seconds do not depend on the unit *)
        /\ y.volume = x.rate * x.dur * m
 
+(* a whole simulation of one physical system (2 flop/s machines, a 240 s     *)
+(* observation producing 3 units/s) written with timestep unit x.unit: task  *)
+(* runtimes, the ingest time and the data volume measured in seconds / units *)
+(* are what the physical description says, whatever the unit and whatever    *)
+(* the workflow file's header says                                           *)
+UnitRunOK(r) ==
+    /\ r.raised = ""
+    /\ Len(r.tasks) = r.ntasks
+    /\ \A i \in 1..Len(r.tasks) : r.tasks[i].sec = r.tasks[i].expect
+    /\ r.obs_seconds = 240
+    /\ r.vol = 720
+
 (* ------------------------------- C15 ------------------------------------ *)
 (* call record: [prob1000, dist, degree, seed, runtime, result, raised, again] *)
 DelayOK(c) ==
@@ -114,6 +126,7 @@ PInit ==
     /\ Report(PData.exhaustive = FALSE \/ Len(PData.plan) = 0 \/ CoverPlan, "C14-coverage", 0)
     /\ \A i \in 1..Len(PData.config) : Report(PData.config[i].raised = "" /\ ConfigOK(PData.config[i].x, PData.config[i].y), "C16", i)
     /\ Report(PData.exhaustive = FALSE \/ Len(PData.config) = 0 \/ CoverConfig, "C16-coverage", 0)
+    /\ \A i \in 1..Len(PData.unitrun) : Report(UnitRunOK(PData.unitrun[i]), "C16-run", i)
     /\ \A i \in 1..Len(PData.delay) : Report(DelayOK(PData.delay[i]), "C15", i)
     /\ \A i \in 1..Len(PData.runtime) : Report(RuntimeOK(PData.runtime[i]), "C06", i)
     /\ Report(MonotoneOK(24), "C06-monotone", 0)
